@@ -113,7 +113,7 @@ class StmtMixin:
             bad = st1.assume(z3.Not(tc))
             if not self.dry and self.feasible(bad):
                 self.excs[-1].append(Outcome("exc", bad, Exc("AssertionError")))
-            yield Outcome("ok", st1.assume(tc))
+            yield Outcome("ok", self.narrow_locals(st1.assume(tc), s.test, True))
 
     def st_Raise(self, s, st):
         if s.exc is None:
@@ -437,6 +437,23 @@ class StmtMixin:
             s2.alloc = na
         return s2
 
+    def loop_frame_assume(self, pre: State, head: State, spec):
+        """LoopSpec.modifies: at the head of an arbitrary iteration every object that existed at loop entry, other than the
+        listed lvalues (evaluated at loop entry), has the field values it had at entry.  Re-proved at every back edge."""
+        if spec is None or spec.modifies is None:
+            return head, None
+        allowed = self.modifies_allowed(spec.modifies, pre)
+        for _, f in self.heap_frame_formulas(head, pre, allowed):
+            head = head.assume(f)
+        return head, allowed
+
+    def loop_frame_oblige(self, pre: State, end: State, allowed, ordn, node):
+        if allowed is None:
+            return
+        for (cls, fname), f in self.heap_frame_formulas(end, pre, allowed):
+            self.oblige(end, "loop-frame", f"#{ordn}:{cls}.{fname}", f,
+                        descr=f"loop #{ordn} changes {cls}.{fname} only where its modifies clause allows", node=node)
+
     def _dry_body(self, body, dry):
         try:
             self.exec_block(body, dry)
@@ -452,6 +469,7 @@ class StmtMixin:
             self.oblige(st, "inv-init", f"#{ordn}.{i}", self.spec_goal(inv, st), descr=f"loop invariant {inv!r} on entry",
                         node=s)
         head = self.havoc_for_loop(st, s.body + [ast.Expr(value=s.test)])
+        head, lf_allowed = self.loop_frame_assume(st, head, spec)
         for inv in spec.invariant:
             head = head.assume(self.spec_bool(inv, head))
         m0 = None
@@ -475,6 +493,7 @@ class StmtMixin:
                         for i, inv in enumerate(spec.invariant):
                             self.oblige(o.st, "inv-step", f"#{ordn}.{i}", self.spec_goal(inv, o.st),
                                         descr=f"loop invariant {inv!r} preserved", node=s)
+                        self.loop_frame_oblige(st, o.st, lf_allowed, ordn, s)
                         if m0 is not None:
                             mv_, max_ = self.spec_eval_full(spec.decreases, o.st)
                             end_ = o.st
@@ -543,6 +562,7 @@ class StmtMixin:
             return dry
         head = self.havoc_for_loop(st, s.body, [ast.Assign(targets=[s.target], value=ast.Constant(value=None))],
                                    binder=_dry_bind)
+        head, lf_allowed = self.loop_frame_assume(st, head, spec)
         if setlike:
             done = fresh(TSet(kt), "done")
             x = z3.Const(fresh_name("x"), zsort(kt))
@@ -581,6 +601,7 @@ class StmtMixin:
                     for i, inv in enumerate(spec.invariant):
                         self.oblige(o.st, "inv-step", f"#{ordn}.{i}", self.spec_goal(inv, o.st, nxt_ghost),
                                     descr=f"loop invariant {inv!r} preserved", node=s)
+                    self.loop_frame_oblige(st, o.st, lf_allowed, ordn, s)
                 elif o.kind == "brk":
                     yield Outcome("ok", o.st)
                 else:
